@@ -561,3 +561,67 @@ func min64(a, b int64) int64 {
 	}
 	return b
 }
+
+// ------------------------------------------------------------------ semantic form
+
+func idxsOf(spans []histogram.Span) []int {
+	var out []int
+	cur := 0
+	for _, s := range spans {
+		cur += int(s.Offset)
+		for k := 0; k < int(s.Length); k++ {
+			out = append(out, cur)
+			cur++
+		}
+	}
+	return out
+}
+
+// SemTok renders fl/hint/schema/zt/count/zcount/sum/posmap/negmap/custom with maps idx:val of the
+// populated buckets only (int flavour: absolute counts; float flavour: value bits).
+func SemTok(x H) string {
+	mapStr := func(spans []histogram.Span, iv []int64, fv []float64) string {
+		var p []string
+		idx := idxsOf(spans)
+		if fv != nil {
+			for i, v := range fv {
+				if v != 0 && i < len(idx) {
+					p = append(p, fmt.Sprintf("%d:%s", idx[i], fb(v)))
+				}
+			}
+		} else {
+			var cur int64
+			for i, d := range iv {
+				cur += d
+				if cur != 0 && i < len(idx) {
+					p = append(p, fmt.Sprintf("%d:%d", idx[i], cur))
+				}
+			}
+		}
+		if len(p) == 0 {
+			return "-"
+		}
+		return strings.Join(p, ",")
+	}
+	if x.F != nil {
+		f := x.F
+		return strings.Join([]string{"f", strconv.Itoa(int(f.CounterResetHint)), strconv.Itoa(int(f.Schema)), fb(f.ZeroThreshold),
+			fb(f.Count), fb(f.ZeroCount), fb(f.Sum), mapStr(f.PositiveSpans, nil, append([]float64{}, f.PositiveBuckets...)),
+			mapStr(f.NegativeSpans, nil, append([]float64{}, f.NegativeBuckets...)), FloatsStr(f.CustomValues)}, "/")
+	}
+	i := x.I
+	return strings.Join([]string{"i", strconv.Itoa(int(i.CounterResetHint)), strconv.Itoa(int(i.Schema)), fb(i.ZeroThreshold),
+		strconv.FormatUint(i.Count, 10), strconv.FormatUint(i.ZeroCount, 10), fb(i.Sum), mapStr(i.PositiveSpans, i.PositiveBuckets, nil),
+		mapStr(i.NegativeSpans, i.NegativeBuckets, nil), FloatsStr(i.CustomValues)}, "/")
+}
+
+func SemSamplesStr(ss []Sample) string {
+	if len(ss) == 0 {
+		return "-"
+	}
+	p := make([]string, len(ss))
+	for i, s := range ss {
+		p[i] = strconv.FormatInt(s.T, 10) + "=" + SemTok(s.H)
+	}
+	return strings.Join(p, ";")
+}
